@@ -47,6 +47,9 @@ ENTRIES = ["opt", "decorator", "context"]
 CAUSE_MSG = "The above exception was the direct cause of the following exception:"
 CONTEXT_MSG = "During handling of the above exception, another exception occurred:"
 MODEL_BUDGET = 600
+# texts sent to the model are cut to WIRE characters: with max_length = 128 `truncate` reads at most the first 129
+# characters of a repr / placeholder (is it longer than 128? its first 125), so the answer is the same
+WIRE = 400
 F12_KEY = "F12-deep-chain-recursion"
 GRP_SHARED_KEY = "C13-group-member-reached-by-chain"
 GRP_WIDE_KEY = "C13-wide-group-ruler-and-plural"
@@ -95,12 +98,39 @@ class Multi:
 
 
 BadLongName = type("B" + "x" * 200, (), {"__repr__": lambda self: 1 / 0})
+MARK = "\u00a4"     # occurs only inside the reprs below: counts how much of a value reaches a report
+
+
+class Shaped:
+    """repr = `lines` lines of `width` marker characters joined by `sep` (matrix / table / document objects)"""
+
+    def __init__(self, lines, width, sep="\n", head=""):
+        self.text = head + sep.join([MARK * width] * lines)
+
+    def __repr__(self):
+        return self.text
+
+
+class Ctl:
+    """repr with control characters and separators other than \\n"""
+
+    def __init__(self, k):
+        self.text = ("<ctl " + SECRET + " a\rb\tc\x0bd\x0ce\x00f \x1b[31mred\x1b[0m g\u2028h\x85i\x1cj>") * k
+
+    def __repr__(self):
+        return self.text
 
 
 def make_pool():
     return [SECRET + "-alpha", SECRET + "-" + "b" * 40, 12345, None, [SECRET, 1, 2], {"k": SECRET + "-d"},
             Huge(), BadRepr(), BadRepr2(), Multi(), BadLongName(), SECRET[:6] + "q" * 120, SECRET + "r" * 121,
-            SECRET + "s" * 119, (SECRET,), 3.5, b"" + SECRET.encode(), True]
+            SECRET + "s" * 119, (SECRET,), 3.5, b"" + SECRET.encode(), True,
+            Shaped(200, 30), Shaped(2000, 1), Shaped(500, 3, head=MARK * 300 + "\n"), Shaped(3, 20), Shaped(4, 31),
+            Shaped(2, 64), Shaped(60, 200), Shaped(40, 5, sep="\r\n"), Shaped(300, 2, sep="\r"), Ctl(1), Ctl(9),
+            Shaped(1, 5, head="\n\n"), Shaped(130, 0)]
+
+
+NPOOL = len(make_pool())
 
 
 # ----------------------------------------------------------------------------- program generator
@@ -183,7 +213,7 @@ class Prog:
 
     def locals_(self):
         r = self.rng
-        out = ["    v1 = POOL[%d]" % r.below(18), "    v2 = POOL[%d]" % r.below(18)]
+        out = ["    v1 = POOL[%d]" % r.below(NPOOL), "    v2 = POOL[%d]" % r.below(NPOOL)]
         if r.chance(30):
             out.append("    v3 = [v1, GSECRET]")
         return out
@@ -496,7 +526,24 @@ LOC = re.compile(r'^(  |> )File "(.*)", line (\d+), in (.*)$')
 RULER = re.compile(r"^( *)(\+-)?\+-+ (\d+|\.\.\.) -+$")
 CLOSE = re.compile(r"^( *)\+-{36}$")
 MARGIN = re.compile(r"^((?:  )+)([|+])(?: (.*))?$")
-VALUE = re.compile(r"^    [ │|]*(?:└|->) (.*)$")
+VALUE = re.compile(r"^(    [ │|]*)(└|->)(?: (.*))?$")
+LINE_BREAKS = "\r\x0b\x0c\x1c\x1d\x1e\x85\u2028\u2029"
+
+
+def canon_value(v):
+    """what is compared between model and report for one value: ANSI removed (the report is stripped as a
+    whole), every line cut at the first str.splitlines() boundary other than \\n (`_indent` re-splits the
+    text there inside groups) and right-stripped (`_indent` strips), trailing empty lines dropped"""
+    lines = []
+    for l in ANSI.sub("", v).split("\n"):
+        for ch in LINE_BREAKS:
+            k = l.find(ch)
+            if k >= 0:
+                l = l[:k]
+        lines.append(l.rstrip())
+    while len(lines) > 1 and lines[-1] == "":
+        lines.pop()
+    return "\n".join(lines)
 REPEAT = re.compile(r"^  \[Previous line repeated (\d+) more times?\]$")
 MORE = re.compile(r"^and (\d+) more exceptions?$")
 
@@ -504,7 +551,22 @@ MORE = re.compile(r"^and (\d+) more exceptions?$")
 def parse_text(text, labels, assert_labels):
     """exception text -> list of piece tuples (depth last)"""
     out = []
+    cont = None    # continuation of a multi-line value: [prefix, depth, index in out, pending empty lines]
     for raw in ANSI.sub("", text).split("\n"):
+        if cont is not None:
+            cd, cline = 0, raw
+            mm = MARGIN.match(raw)
+            if mm:
+                cd, cline = len(mm.group(1)) // 2, mm.group(3) or ""
+            if cd == cont[1] and cline.startswith(cont[0]):
+                k, t, dd = out[cont[2]]
+                out[cont[2]] = (k, t + "\n" * (cont[3] + 1) + cline[len(cont[0]):], dd)
+                cont[3] = 0
+                continue
+            if cd == cont[1] and cont[0].startswith(cline) and cont[1] > 0 and cline != "":
+                cont[3] += 1        # a right-stripped empty continuation line inside a group
+                continue
+            cont = None
         if not raw.strip():
             continue
         m = RULER.match(raw)
@@ -541,7 +603,9 @@ def parse_text(text, labels, assert_labels):
         elif line == "... (max_group_depth is 10)":
             out.append(("maxdepth", d))
         elif VALUE.match(line):
-            out.append(("val", VALUE.match(line).group(1), d))
+            mv = VALUE.match(line)
+            out.append(("val", mv.group(3) or "", d))
+            cont = [mv.group(1) + " " * (len(mv.group(2)) + 1), d, len(out) - 1, 0]
         elif line in labels:
             out.append(("only", line, d))
         else:
@@ -564,7 +628,7 @@ def model_pieces(tokens, heap):
         elif k == "frame":
             out.append(("frame", dec(p[1]), int(p[2]), dec(p[3]), p[4] == "1", int(p[5])))
         elif k == "val":
-            out.append(("val", dec(p[1]).split("\n")[0], int(p[2])))
+            out.append(("val", dec(p[1]), int(p[2])))
         elif k == "rep":
             out.append(("rep", int(p[1]), int(p[2])))
         elif k in ("cause", "context", "maxdepth", "end"):
@@ -578,6 +642,23 @@ def model_pieces(tokens, heap):
         else:
             out.append(("?", t))
     return out
+
+
+def align_values(mp, ip):
+    """canonical form of the value pieces of model (mp) and report (ip) before they are compared: whole values
+    (all lines) in general; only the text before the first line boundary when the value contains a
+    str.splitlines() boundary other than \\n, because `_indent` re-splits such values inside groups and the
+    colour codes wrapped around them"""
+    mp, ip = list(mp), list(ip)
+    for i in range(min(len(mp), len(ip))):
+        if mp[i][0] == "val" and ip[i][0] == "val":
+            if any(ch in mp[i][1] for ch in LINE_BREAKS):
+                mp[i] = ("val", canon_value(mp[i][1]).split("\n")[0], mp[i][2])
+                ip[i] = ("val", canon_value(ip[i][1]).split("\n")[0], ip[i][2])
+            else:
+                mp[i] = ("val", canon_value(mp[i][1]), mp[i][2])
+                ip[i] = ("val", canon_value(ip[i][1]), ip[i][2])
+    return mp, ip
 
 
 def drop_foreign_values(pieces, genfile, heap):
@@ -616,7 +697,7 @@ def heap_line(kind, heap, mode, limit, from_dec, budget, with_vals=True):
         # only the emptiness of the source line matters to the model
         t = [enc(f["file"]), str(f["line"]), enc(f["func"]), "78" if f["source"] else "-", "1" if f["hidden"] else "0", str(len(vals))]
         for r, ty in vals:
-            t += ["!" if r is None else enc(r), enc(ty)]
+            t += ["!" if r is None else enc(r[:WIRE]), enc(ty[:WIRE])]
         return t
 
     for x in heap:
@@ -788,12 +869,19 @@ def judge_case(ctx, rep, src, genfile, entry, limit, outs, heap, exc_info, err, 
         pieces = parse_text(body, labels, assert_labels)
         # oracle 4: values bounded
         if mode[1]:
+            nval = sum(1 for p in pieces if p[0] == "val")
             for p in pieces:
                 if p[0] == "val" and len(p[1]) > 128:
-                    ctx.violation("oracle 4 (values bounded): a value line has %d characters" % len(p[1]),
-                                  dict(mrep, oracle="bounded"))
+                    ctx.violation("oracle 4 (values bounded): one displayed value has %d characters on %d lines: %r..."
+                                  % (len(p[1]), p[1].count("\n") + 1, p[1][:40]), dict(mrep, oracle="bounded"))
                     break
-            ctx.stat("value_lines", sum(1 for p in pieces if p[0] == "val"))
+            else:
+                # layout-independent second look: characters of the marker reprs anywhere in the report
+                if plain.count(MARK) > 128 * nval:
+                    ctx.violation("oracle 4 (values bounded): %d value characters in a report that displays %d values"
+                                  % (plain.count(MARK), nval), dict(mrep, oracle="bounded"))
+            ctx.stat("value_lines", nval)
+            ctx.stat("multi_line_values", sum(1 for p in pieces if p[0] == "val" and "\n" in p[1]))
         # oracle 1: plain mode is the standard traceback
         if mode == (False, False, False):
             extra = []
@@ -905,6 +993,35 @@ def gen_case(seed):
     return src, p.features
 
 
+SEPS = ["\n", "\r\n", "\r", "\x0b", "\x0c", "\u2028", "\x00", "\t", "\x1b[0m"]
+
+
+def val_grid(rng):
+    """(kind, lines, width, separator index): repr = `lines` pieces of `width` characters joined by a separator"""
+    grid = []
+    for n in [0, 1, 3, 124, 125, 126, 127, 128, 129, 130, 131, 200, 5000]:
+        grid.append(("ok", 1, n, 0))
+        grid.append(("raise", 1, n, 0))
+    for lines, width in [(2, 63), (2, 64), (3, 42), (5, 30), (40, 200), (129, 0), (130, 0), (200, 1), (5000, 30),
+                         (20000, 1), (300, 127), (2, 128), (2, 5000)]:
+        for sep in (0, 1):
+            grid.append(("ok", lines, width, sep))
+    for _ in range(40):
+        grid.append(("ok", rng.choice([1, 2, 3, 7, 50, 400, 3000]), rng.choice([0, 1, 2, 30, 64, 127, 128, 129, 1000]),
+                     rng.below(len(SEPS))))
+    return grid
+
+
+def val_object(spec):
+    kind, lines, width, sep = spec
+    if kind == "raise":
+        T = type("T" * max(width, 1), (), {"__repr__": lambda self: 1 / 0})
+        return T(), None, "T" * max(width, 1)
+    text = SEPS[sep].join(["\u00e9" * width] * lines)
+    R = type("R", (), {"__repr__": lambda self: text})
+    return R(), text, "R"
+
+
 def run(ctx):
     rng = ctx.rng
     drv = core.Driver(DRIVER)
@@ -956,35 +1073,28 @@ def run(ctx):
             break
     sys.setrecursionlimit(old_limit)
 
-    # ---- formatValue grid (values_bounded on the implementation + model)
+    # ---- formatValue grid (values_bounded on the implementation + model): single-line sizes around the limit,
+    #      raising reprs, and reprs of many lines / other separators and control characters
     from loguru._better_exceptions import ExceptionFormatter
     fmtr = ExceptionFormatter()
     val_lines, val_exp = [], []
-    for n in [0, 1, 3, 124, 125, 126, 127, 128, 129, 130, 131, 200, 5000]:
-        for mk in ("ok", "raise"):
-            if mk == "ok":
-                class R:
-                    def __init__(self, n): self.n = n
-                    def __repr__(self): return "é" * self.n
-                v, r, ty = R(n), "é" * n, "R"
-            else:
-                T = type("T" * max(n, 1), (), {"__repr__": lambda self: 1 / 0})
-                v, r, ty = T(), None, "T" * max(n, 1)
-            ctx.case(("val", n, mk))
-            try:
-                got = fmtr._format_value(v)
-            except Exception as e:
-                ctx.violation("oracle 3 (never fails): _format_value lets %s escape from a raising repr" % type(e).__name__,
-                              {"stream": "val", "n": n, "kind": mk, "oracle": "bounded"})
-                continue
-            if len(got) > 128:
-                ctx.violation("oracle 4 (values bounded): _format_value gives %d characters" % len(got),
-                              {"stream": "val", "n": n, "kind": mk, "oracle": "bounded"})
-            if mk == "raise" and not got.startswith("<unprintable T"):
-                ctx.violation("raising repr does not give the placeholder: %r" % got[:60],
-                              {"stream": "val", "n": n, "kind": mk, "oracle": "bounded"})
-            val_lines.append("val 128 %s %s" % ("!" if r is None else enc(r), enc(ty)))
-            val_exp.append((n, mk, got))
+    for spec in val_grid(rng):
+        v, r, ty = val_object(spec)
+        ctx.case(("val",) + tuple(spec))
+        vrep = {"stream": "val", "spec": list(spec), "oracle": "bounded"}
+        try:
+            got = fmtr._format_value(v)
+        except Exception as e:
+            ctx.violation("oracle 3 (never fails): _format_value lets %s escape from a raising repr" % type(e).__name__, vrep)
+            continue
+        if len(got) > 128:
+            ctx.violation("oracle 4 (values bounded): _format_value gives %d characters on %d lines for a repr of %d "
+                          "lines x %d characters" % (len(got), got.count("\n") + 1, spec[1], spec[2]), vrep)
+        if spec[0] == "raise" and not got.startswith("<unprintable T"):
+            ctx.violation("raising repr does not give the placeholder: %r" % got[:60], vrep)
+        val_lines.append("val 128 %s %s" % ("!" if r is None else enc(r[:WIRE]), enc(ty[:WIRE])))
+        val_lines.append("vlines 128 %s %s" % ("!" if r is None else enc(r[:WIRE]), enc(ty[:WIRE])))
+        val_exp.append((spec, got))
 
     out = drv.run(lines + std_lines + val_lines)
     nbad = 0
@@ -1003,6 +1113,7 @@ def run(ctx):
             ip = drop_foreign_values(pieces, genfile, heap)
             if not mode[1]:
                 mp = [p for p in mp if p[0] != "val"]
+            mp, ip = align_values(mp, ip)
             if mp != ip:
                 k = next((j for j in range(min(len(mp), len(ip))) if mp[j] != ip[j]), min(len(mp), len(ip)))
                 nbad += 1
@@ -1023,11 +1134,13 @@ def run(ctx):
             break
     ctx.stat("std_transcription_checked", len(std_expect))
     off += len(std_lines)
-    for (n, mk, got), o in zip(val_exp, out[off:]):
+    for (spec, got), o, o2 in zip(val_exp, out[off::2], out[off + 1::2]):
+        if o2 != "ok %d %d" % (len(got.split("\n")), sum(len(l) for l in got.split("\n"))):
+            ctx.broke("correspondence Exc.displayLines", "%r: impl %d lines, model %r" % (spec, len(got.split("\n")), o2))
         if o != "ok " + enc(got):
-            ctx.broke("correspondence Exc.formatValue", "n=%d %s: impl %r model %r" % (n, mk, got[:40], o[:60]))
-            ctx.violation("_format_value and model disagree for a %s repr of size %d" % (mk, n),
-                          {"stream": "val", "n": n, "kind": mk, "oracle": "model"}, kind="correspondence")
+            ctx.broke("correspondence Exc.formatValue", "%r: impl %r model %r" % (spec, got[:40], o[:60]))
+            ctx.violation("_format_value and model disagree for the repr %r" % (spec,),
+                          {"stream": "val", "spec": list(spec), "oracle": "model"}, kind="correspondence")
     seen, uniq = set(), []
     for b in ctx.broken:
         if b["name"] not in seen:
@@ -1057,17 +1170,24 @@ def replay(ctx, rep):
         probe_f12(c)
     elif r.get("stream") == "val":
         from loguru._better_exceptions import ExceptionFormatter
-        n = r["n"]
-        T = type("T" * max(n, 1), (), {"__repr__": (lambda self: 1 / 0) if r["kind"] == "raise" else (lambda self: "é" * n)})
+        spec = tuple(r["spec"])
+        v, text, ty = val_object(spec)
         try:
-            got = ExceptionFormatter()._format_value(T())
+            got = ExceptionFormatter()._format_value(v)
         except Exception as e:
             print("_format_value raised", repr(e))
             print("REPRODUCED")
             return 1
-        print("_format_value ->", len(got), "characters:", got[:80])
-        exp = ("é" * n if n <= 128 else "é" * 125 + "...") if r["kind"] == "ok" else None
-        bad = len(got) > 128 or (r["kind"] == "raise" and not got.startswith("<unprintable")) or (exp is not None and got != exp)
+        print("repr: %s, %d pieces of %d characters joined by %r (%s characters)" % (
+            spec[0], spec[1], spec[2], SEPS[spec[3]], "-" if text is None else len(text)))
+        print("_format_value ->", len(got), "characters on", got.count("\n") + 1, "lines:", repr(got[:80]))
+        exp = None if text is None else (text if len(text) <= 128 else text[:125] + "...")
+        try:
+            out = core.Driver(DRIVER).run(["val 128 %s %s" % ("!" if text is None else enc(text[:WIRE]), enc(ty[:WIRE]))])[0]
+            print("model        ->", len(dec(out[3:])) if out.startswith("ok ") else out, "characters")
+        except core.DriverError:
+            print("model        -> (driver does not build against this tree)")
+        bad = len(got) > 128 or (spec[0] == "raise" and not got.startswith("<unprintable")) or (exp is not None and got != exp)
         print("REPRODUCED" if bad else "not reproduced")
         return 1 if bad else 0
     else:
@@ -1096,6 +1216,7 @@ def replay(ctx, rep):
                 ip = drop_foreign_values(pieces, gf, hp)
                 if not mode[1]:
                     mp = [p for p in mp if p[0] != "val"]
+                mp, ip = align_values(mp, ip)
                 print("implementation pieces:", ip)
                 print("model pieces:         ", mp)
                 if mp != ip:
